@@ -18,15 +18,19 @@
             the synopsis), FALSE the pinned tree.
 
    A configuration (JSON-shaped, built by MC_HelpPage or shipped by the driver):
-     cfg  = [app, display, ver, help, gopts, cmds]     display: words of the display name; ver: "" = none;
-                                                       help: paragraphs, each a sequence of words
+     cfg  = [app, display, ver, help, gargs, gopts, cmds, nl, gw, tnl]
+            display: words of the display name; ver: "" = none; help: paragraphs, each a sequence of words;
+            gargs: global arguments (every command inherits them; the application page does not show them);
+            nl, gw, tnl: how the words of a description are joined in the string given to clikit - every nl-th gap
+            (0 = none) is a line separator of gw characters (LF, CR, VT, FF: 1; CR LF: 2) instead of a blank, and tnl says
+            that such a separator also ends the description (textwrap turns each of these characters into a blank)
      cmd  = [name, rank, aliases, hidden, enabled, dflt, anon, builtin, desc, help, args, opts, subs]
             rank: position of the name in the sorted order of the names (TLC cannot compare strings)
-            desc: words (<<>> = none); subs: commands whose own subs are <<>>
+            desc: words (<<>> = none); subs: commands again (any depth; the families go three levels deep)
      arg  = [name, req, multi, hasDesc, desc, dflt]     dflt: the words of json.dumps(default), <<>> = none
-     opt  = [long, short, ps, val, multi, hasDesc, desc, dflt]
-            short: "" = none; ps: the short name is the preferred one; val: "no" | "req" | "opt"
-   A target is a path of positions: <<>> the application, <<i>> cfg.cmds[i], <<i, j>> cfg.cmds[i].subs[j].
+     opt  = [long, short, ps, val, multi, hasDesc, desc, dflt, vn]
+            short: "" = none; ps: the short name is the preferred one; val: "no" | "req" | "opt"; vn: value name
+   A target is a path of positions: <<>> the application, <<i>> cfg.cmds[i], <<i, j>> cfg.cmds[i].subs[j], ...
 
    A written line is [g, w, tail]: words w (maximal runs of non-blank characters), g[k] blanks in front of word k,
    tail blanks behind the last word (or the whole line when it has no word).  Words are TLA+ strings:
@@ -43,11 +47,17 @@ Map(f(_), s) == [j \in 1..Len(s) |-> f(s[j])]
 
 \* ------------------------------------------------------------------ configurations
 Enabled(cs) == SelectSeq(cs, LAMBDA c : c.enabled)
-CmdAt(cfg, p) == IF Len(p) = 1 THEN cfg.cmds[p[1]] ELSE cfg.cmds[p[1]].subs[p[2]]
+RECURSIVE Descend(_, _)
+Descend(c, p) == IF p = <<>> THEN c ELSE Descend(c.subs[Head(p)], Tail(p))
+CmdAt(cfg, p) == Descend(cfg.cmds[p[1]], Tail(p))
+Prefix(p, n) == SubSeq(p, 1, n)
+\* the commands on the way to p (outermost first), without / with p itself
+Above(cfg, p) == [n \in 1..(Len(p) - 1) |-> CmdAt(cfg, Prefix(p, n))]
 \* arguments: inherited ones first; options: own ones first (ArgsFormat.get_arguments / get_options)
-AllArgs(cfg, p) == IF Len(p) = 2 THEN cfg.cmds[p[1]].args \o CmdAt(cfg, p).args ELSE CmdAt(cfg, p).args
-BaseOpts(cfg, p) == IF Len(p) = 2 THEN cfg.cmds[p[1]].opts \o cfg.gopts ELSE cfg.gopts
-Children(cfg, p) == IF p = <<>> THEN cfg.cmds ELSE IF Len(p) = 1 THEN cfg.cmds[p[1]].subs ELSE <<>>
+UpArgs(cfg, p) == cfg.gargs \o Cat([n \in 1..(Len(p) - 1) |-> Above(cfg, p)[n].args])
+AllArgs(cfg, p) == UpArgs(cfg, p) \o CmdAt(cfg, p).args
+BaseOpts(cfg, p) == Cat([n \in 1..(Len(p) - 1) |-> Above(cfg, p)[Len(p) - n].opts]) \o cfg.gopts     \* nearest first
+Children(cfg, p) == IF p = <<>> THEN cfg.cmds ELSE CmdAt(cfg, p).subs
 
 \* the name an option is listed under, and the other one ("" when there is none)
 Pref(o) == IF o.ps THEN "-" \o o.short ELSE "--" \o o.long
@@ -62,9 +72,14 @@ MustCmds(cfg, p) == {c.name : c \in {x \in Els(Children(cfg, p)) : Listed(x)}}
 MustArgs(cfg, p) == IF p = <<>> THEN {} ELSE {a.name : a \in Els(AllArgs(cfg, p))}
 OptsOf(cfg, p) == IF p = <<>> THEN cfg.gopts ELSE CmdAt(cfg, p).opts \o BaseOpts(cfg, p)
 MustOpts(cfg, p) == {<<Pref(o), Alt(o)>> : o \in Els(OptsOf(cfg, p))}
-\* hidden or disabled commands below the target: neither their names nor their aliases may show up
+\* hidden or disabled commands anywhere below the target: neither their names nor their aliases may show up
+RECURSIVE Below(_)
+Below(cs) == Els(cs) \cup UNION {Below(c.subs) : c \in Els(cs)}
+\* (a name the page shows anyway - the target's own and those of the commands above it - is not a leak when a hidden
+\*  command further down happens to share it)
+OnPath(cfg, p) == UNION {{CmdAt(cfg, Prefix(p, n)).name} \cup Els(CmdAt(cfg, Prefix(p, n)).aliases) : n \in 1..Len(p)}
 Forbidden(cfg, p) ==
-  UNION {{c.name} \cup Els(c.aliases) : c \in {x \in Els(Children(cfg, p)) : ~x.enabled \/ x.hidden}}
+  UNION {{c.name} \cup Els(c.aliases) : c \in {x \in Below(Children(cfg, p)) : ~x.enabled \/ x.hidden}} \ OnPath(cfg, p)
 
 \* --- reading a page
 Headings == {<<"USAGE">>, <<"ARGUMENTS">>, <<"COMMANDS">>, <<"AVAILABLE", "COMMANDS">>, <<"OPTIONS">>,
@@ -93,7 +108,7 @@ Margin == 10
 OptLabelLen(o) == Len(Pref(o)) + (IF Alt(o) = "" THEN 0 ELSE Len(Alt(o)) + 3)
 \* "or: <app> <name> [<name>]": the label of a synopsis line
 SynLabelLen(cfg, names) == 4 + Len(cfg.app) + Sum([k \in 1..Len(names) |-> 1 + Len(names[k])]) + 2
-NamesOf(cfg, p) == [k \in 1..Len(p) |-> IF k = 1 THEN cfg.cmds[p[1]].name ELSE cfg.cmds[p[1]].subs[p[2]].name]
+NamesOf(cfg, p) == [n \in 1..Len(p) |-> CmdAt(cfg, Prefix(p, n)).name]
 LongestLabel(cfg, p) ==
   LET kids == Children(cfg, p)
       own == IF p = <<>> THEN {9}                                  \* "<command>" on the application page
@@ -103,15 +118,15 @@ LongestLabel(cfg, p) ==
       nested == UNION {{Len(a.name) + 2 : a \in Els(c.args)} \cup {OptLabelLen(o) : o \in Els(c.opts)}
                        : c \in Els(kids)}
       syn == {SynLabelLen(cfg, NamesOf(cfg, p))}
-             \cup (IF Len(p) = 1 THEN {SynLabelLen(cfg, NamesOf(cfg, p) \o <<c.name>>) : c \in Els(kids)} ELSE {})
+             \cup (IF p # <<>> THEN {SynLabelLen(cfg, NamesOf(cfg, p) \o <<c.name>>) : c \in Els(kids)} ELSE {})
   IN Max(own \cup opts \cup names \cup nested \cup syn)
 Pre(cfg, p, T) == T >= LongestLabel(cfg, p) + Margin
 
 \* ------------------------------------------------------------------ A-layer: text
 \* a chunk of running text: r the characters as written (style tags included), t whether it contains style tags,
 \* ws whether it is a run of blanks
-Wd(s) == [r |-> s, t |-> FALSE, ws |-> FALSE]
-Tg(s) == [r |-> s, t |-> TRUE, ws |-> FALSE]
+Wd(s) == [r |-> s, t |-> FALSE, ws |-> FALSE, g |-> 1]            \* g: blanks (or separators) in front of the word
+Tg(s) == [r |-> s, t |-> TRUE, ws |-> FALSE, g |-> 1]
 Plain(ws) == [j \in 1..Len(ws) |-> Wd(ws[j])]
 \* "<tag>w1 w2 ... wn</tag>"
 Styled(tag, ws) ==
@@ -133,8 +148,15 @@ Vis(c) == IF c.t THEN StripFrom(c.r, 1) ELSE c.r
 \* textwrap.wrap(text, width) with default options.  Chunks: the words with one blank chunk between two words
 \* (the texts of a help page are words joined by single blanks or newlines; newlines count as blanks).
 Spaces(n) == IF n = 1 THEN " " ELSE IF n = 2 THEN "  " ELSE IF n = 3 THEN "   " ELSE "    "
-Gap(n) == [r |-> Spaces(n), t |-> FALSE, ws |-> TRUE]                \* a run of n blanks / newlines (n <= 4)
-Chunks(text) == Cat([j \in 1..Len(text) |-> IF j = 1 THEN <<text[j]>> ELSE <<Gap(1), text[j]>>])
+Gap(n) == [r |-> Spaces(n), t |-> FALSE, ws |-> TRUE, g |-> 0]                \* a run of n blanks / newlines (n <= 4)
+Chunks(text) == Cat([j \in 1..Len(text) |-> IF j = 1 THEN <<text[j]>> ELSE <<Gap(text[j].g), text[j]>>])
+\* a description as the application wrote it: K = [k, w, t], every k-th gap is w characters wide (see cfg.nl, gw, tnl)
+KOf(cfg) == [k |-> cfg.nl, w |-> cfg.gw, t |-> cfg.tnl]
+User(ws, K) == [j \in 1..Len(ws) |-> [Wd(ws[j]) EXCEPT !.g = IF j > 1 /\ K.k > 0 /\ (j - 1) % K.k = 0 THEN K.w ELSE 1]]
+\* ... followed by what the help page appends to it (" <b>default</b>"): a trailing separator widens that gap
+WithSuffix(desc, suffix, K) ==
+  IF desc = <<>> \/ suffix = <<>> THEN desc \o suffix
+  ELSE desc \o [suffix EXCEPT ![1].g = 1 + (IF K.t THEN K.w ELSE 0)]
 IsWhite(c) == c.ws \/ c.r = ""                                      \* chunk.strip() == ''
 
 \* the inner loop of _wrap_chunks: chunks are taken while they fit
@@ -239,21 +261,21 @@ RenderAll(els, T, off) ==
 Heading(ws) == Para(0, Styled("b", ws))
 
 \* AbstractHelp._render_argument
-ArgEl(a, ind) ==
+ArgEl(a, ind, K) ==
   Lab(ind, 0, <<ArgLabel(a.name)>>,
-      (IF a.hasDesc THEN Plain(a.desc) ELSE <<>>) \o Styled("b", a.dflt), 2, TRUE, ~a.hasDesc)
+      WithSuffix(IF a.hasDesc THEN User(a.desc, K) ELSE <<>>, Styled("b", a.dflt), K), 2, TRUE, ~a.hasDesc)
 
 \* AbstractHelp._render_option
-OptEl(o, ind) ==
+OptEl(o, ind, K) ==
   LET dfl == IF o.val # "no" /\ o.dflt # <<>>
              THEN Styled("b", <<"(default:">> \o SubSeq(o.dflt, 1, Len(o.dflt) - 1) \o <<o.dflt[Len(o.dflt)] \o ")">>)
              ELSE <<>>
       mul == IF o.multi THEN Styled("b", <<"(multiple", "values", "allowed)">>) ELSE <<>>
   IN Lab(ind, 0, <<Pref(o)>> \o (IF Alt(o) = "" THEN <<>> ELSE <<"(" \o Alt(o) \o ")">>),
-         (IF o.hasDesc THEN Plain(o.desc) ELSE <<>>) \o dfl \o mul, 2, TRUE, ~o.hasDesc)
+         WithSuffix(IF o.hasDesc THEN User(o.desc, K) ELSE <<>>, dfl \o mul, K), 2, TRUE, ~o.hasDesc)
 
 \* AbstractHelp._render_synopsis; "~" stands for the no-break space between an option and its value
-SynOpt(o) == "[" \o Pref(o) \o (IF o.val = "req" THEN "~<...>" ELSE IF o.val = "opt" THEN "~[<...>]" ELSE "") \o "]"
+SynOpt(o) == "[" \o Pref(o) \o (IF o.val = "req" THEN "~<" \o o.vn \o ">" ELSE IF o.val = "opt" THEN "~[<" \o o.vn \o ">]" ELSE "") \o "]"
 SynArg(a) ==
   LET n == IF a.multi THEN a.name \o "1" ELSE a.name
   IN <<IF a.req THEN "<" \o n \o ">" ELSE "[<" \o n \o ">]">>
@@ -267,8 +289,8 @@ Synopsis(cfg, f, prefix) ==
   IN Lab(2, IF prefix = "pad" THEN 4 ELSE 0, (IF prefix = "or" THEN <<"or:">> ELSE <<>>) \o <<app>> \o names,
          Plain(Map(SynOpt, f.opts) \o Cat(Map(SynArg, f.args))), 1, FALSE, FALSE)
 
-OptionBlock(title, opts) ==
-  IF opts = <<>> THEN <<>> ELSE <<Heading(title)>> \o [j \in 1..Len(opts) |-> OptEl(opts[j], 2)] \o <<EmptyEl>>
+OptionBlock(title, opts, K) ==
+  IF opts = <<>> THEN <<>> ELSE <<Heading(title)>> \o [j \in 1..Len(opts) |-> OptEl(opts[j], 2, K)] \o <<EmptyEl>>
 DescriptionBlock(help) ==
   IF help = <<>> THEN <<>>
   ELSE <<Heading(<<"DESCRIPTION">>)>> \o [j \in 1..Len(help) |-> Para(2, Plain(help[j]))] \o <<EmptyEl>>
@@ -284,25 +306,26 @@ JoinedHelp(help) ==
   IN r.ch
 
 \* CommandHelp._render_sub_command
-SubCmdEls(s) ==
+SubCmdEls(s, K) ==
   IF s.hidden THEN <<>>
   ELSE <<Para(2, Styled("u", <<s.name>>))>>
-       \o (IF s.desc # <<>> THEN <<Para(4, Plain(s.desc)), EmptyEl>> ELSE <<>>)
+       \o (IF s.desc # <<>> THEN <<Para(4, User(s.desc, K)), EmptyEl>> ELSE <<>>)
        \o (IF s.help # <<>> THEN <<ParaCh(4, JoinedHelp(s.help)), EmptyEl>> ELSE <<>>)
-       \o (IF s.args # <<>> THEN [j \in 1..Len(s.args) |-> ArgEl(s.args[j], 4)] \o <<EmptyEl>> ELSE <<>>)
-       \o (IF s.opts # <<>> THEN [j \in 1..Len(s.opts) |-> OptEl(s.opts[j], 4)] \o <<EmptyEl>> ELSE <<>>)
+       \o (IF s.args # <<>> THEN [j \in 1..Len(s.args) |-> ArgEl(s.args[j], 4, K)] \o <<EmptyEl>> ELSE <<>>)
+       \o (IF s.opts # <<>> THEN [j \in 1..Len(s.opts) |-> OptEl(s.opts[j], 4, K)] \o <<EmptyEl>> ELSE <<>>)
        \o (IF s.desc = <<>> /\ s.help = <<>> /\ s.args = <<>> /\ s.opts = <<>> THEN <<EmptyEl>> ELSE <<>>)
 
 \* CommandHelp._render_help
 CommandEls(cfg, p) ==
   LET c == CmdAt(cfg, p)
-      subs == IF Len(p) = 1 THEN Enabled(c.subs) ELSE <<>>
-      upnames == IF Len(p) = 2 THEN <<cfg.cmds[p[1]].name>> ELSE <<>>
-      upargs == IF Len(p) = 2 THEN cfg.cmds[p[1]].args ELSE <<>>
+      K == KOf(cfg)
+      subs == Enabled(c.subs)
+      upnames == NamesOf(cfg, Prefix(p, Len(p) - 1))
+      upargs == UpArgs(cfg, p)
       ownf == [names |-> upnames \o (IF c.anon THEN <<>> ELSE <<c.name>>), lastopt |-> FALSE, opts |-> c.opts,
                args |-> upargs \o c.args]
-      SubF(s, opt) == [names |-> <<c.name>> \o (IF s.anon THEN <<>> ELSE <<s.name>>), lastopt |-> opt, opts |-> s.opts,
-                       args |-> c.args \o s.args]
+      SubF(s, opt) == [names |-> upnames \o <<c.name>> \o (IF s.anon THEN <<>> ELSE <<s.name>>), lastopt |-> opt, opts |-> s.opts,
+                       args |-> upargs \o c.args \o s.args]
       dsubs == SelectSeq(subs, LAMBDA s : s.dflt)
       \* repaired: hidden default sub-commands are not printed either
       dshown == IF Repaired THEN SelectSeq(dsubs, LAMBDA s : ~s.hidden) ELSE dsubs
@@ -316,10 +339,10 @@ CommandEls(cfg, p) ==
       args == upargs \o c.args
       named == SelectSeq(subs, LAMBDA s : ~s.anon)
   IN <<Heading(<<"USAGE">>)>> \o usage \o aliases \o <<EmptyEl>>
-     \o (IF args # <<>> THEN <<Heading(<<"ARGUMENTS">>)>> \o [j \in 1..Len(args) |-> ArgEl(args[j], 2)] \o <<EmptyEl>> ELSE <<>>)
-     \o (IF named # <<>> THEN <<Heading(<<"COMMANDS">>)>> \o Cat(Map(SubCmdEls, ByName(named))) ELSE <<>>)
-     \o OptionBlock(<<"OPTIONS">>, c.opts)
-     \o OptionBlock(<<"GLOBAL", "OPTIONS">>, BaseOpts(cfg, p))
+     \o (IF args # <<>> THEN <<Heading(<<"ARGUMENTS">>)>> \o [j \in 1..Len(args) |-> ArgEl(args[j], 2, K)] \o <<EmptyEl>> ELSE <<>>)
+     \o (IF named # <<>> THEN <<Heading(<<"COMMANDS">>)>> \o Cat([j \in 1..Len(named) |-> SubCmdEls(ByName(named)[j], K)]) ELSE <<>>)
+     \o OptionBlock(<<"OPTIONS">>, c.opts, K)
+     \o OptionBlock(<<"GLOBAL", "OPTIONS">>, BaseOpts(cfg, p), K)
      \o DescriptionBlock(c.help)
 
 \* ApplicationHelp._render_help
@@ -328,18 +351,20 @@ CommandArg == [name |-> "command", req |-> TRUE, multi |-> FALSE, hasDesc |-> TR
 ArgArg == [name |-> "arg", req |-> FALSE, multi |-> TRUE, hasDesc |-> TRUE,
            desc |-> <<"The", "arguments", "of", "the", "command">>, dflt |-> <<>>]
 ApplicationEls(cfg) ==
-  LET named == SelectSeq(Enabled(cfg.cmds), LAMBDA c : ~c.anon)
+  LET K == KOf(cfg)
+      NoK == [k |-> 0, w |-> 1, t |-> FALSE]
+      named == SelectSeq(Enabled(cfg.cmds), LAMBDA c : ~c.anon)
       shown == SelectSeq(ByName(named), LAMBDA c : ~c.hidden)
       title == IF cfg.display # <<>> /\ cfg.ver # "" THEN Plain(cfg.display) \o <<Wd("version")>> \o Styled("c1", <<cfg.ver>>)
                ELSE IF cfg.display # <<>> THEN Plain(cfg.display)
                ELSE Plain(<<"Console", "Tool">>)
   IN <<Para(0, title), EmptyEl, Heading(<<"USAGE">>),
        Synopsis(cfg, [names |-> <<>>, lastopt |-> FALSE, opts |-> cfg.gopts, args |-> <<CommandArg, ArgArg>>], ""),
-       EmptyEl, Heading(<<"ARGUMENTS">>), ArgEl(CommandArg, 2), ArgEl(ArgArg, 2), EmptyEl>>
-     \o OptionBlock(<<"GLOBAL", "OPTIONS">>, cfg.gopts)
+       EmptyEl, Heading(<<"ARGUMENTS">>), ArgEl(CommandArg, 2, NoK), ArgEl(ArgArg, 2, NoK), EmptyEl>>
+     \o OptionBlock(<<"GLOBAL", "OPTIONS">>, cfg.gopts, K)
      \o (IF named # <<>>
          THEN <<Heading(<<"AVAILABLE", "COMMANDS">>)>>
-              \o [j \in 1..Len(shown) |-> Lab(2, 0, <<shown[j].name>>, Plain(shown[j].desc), 2, TRUE, FALSE)] \o <<EmptyEl>>
+              \o [j \in 1..Len(shown) |-> Lab(2, 0, <<shown[j].name>>, User(shown[j].desc, K), 2, TRUE, FALSE)] \o <<EmptyEl>>
          ELSE <<>>)
      \o DescriptionBlock(cfg.help)
 
@@ -348,40 +373,36 @@ Elements(cfg, p) == IF p = <<>> THEN ApplicationEls(cfg) ELSE CommandEls(cfg, p)
 PageOf(cfg, p, T) == LET els == Elements(cfg, p) IN RenderAll(els, T, AlignOffset(els))
 
 \* pages that can be asked for: the application, every enabled command, every enabled sub-command of those
-Targets(cfg) ==
-  <<<<>>>> \o Cat([i \in 1..Len(cfg.cmds) |->
-                     IF ~cfg.cmds[i].enabled THEN <<>>
-                     ELSE <<<<i>>>> \o Cat([j \in 1..Len(cfg.cmds[i].subs) |->
-                                              IF cfg.cmds[i].subs[j].enabled THEN <<<<i, j>>>> ELSE <<>>])])
+RECURSIVE PathsBelow(_, _)
+PathsBelow(cs, pre) ==       \* the enabled commands among cs and everything enabled below them, as paths
+  Cat([i \in 1..Len(cs) |-> IF ~cs[i].enabled THEN <<>> ELSE <<Append(pre, i)>> \o PathsBelow(cs[i].subs, Append(pre, i))])
+Targets(cfg) == <<<<>>>> \o PathsBelow(cfg.cmds, <<>>)
 
 \* ------------------------------------------------------------------ A-layer: which page a help request shows
-\* A request names a command by the positions i (command) and j (sub-command, 0 = none), i = 0: no command at all.
+\* A request names a command by its path q of positions (<<>>: no command at all).
 \* The resolver walks the names, then looks at the default sub-commands of the command it ended on: the first one
 \* whose *strict* parse of the request succeeds, else the first one (DefaultResolver.process_default_commands).
 \* The request has no arguments beside the names, so the strict parse succeeds iff nothing is required.
 NeedsArgs(cfg, p) == \E a \in Els(AllArgs(cfg, p)) : a.req
-Resolve(cfg, i, j) ==
-  IF i = 0 THEN [p |-> <<>>, viaDefault |-> FALSE]
-  ELSE IF j > 0 THEN [p |-> <<i, j>>, viaDefault |-> FALSE]
-  ELSE LET subs == cfg.cmds[i].subs
-           ds == {k \in 1..Len(subs) : subs[k].enabled /\ subs[k].dflt}
-           ok == {k \in ds : ~NeedsArgs(cfg, <<i, k>>)}
-       IN IF ds = {} THEN [p |-> <<i>>, viaDefault |-> FALSE]
-          ELSE [p |-> <<i, IF ok # {} THEN Min(ok) ELSE Min(ds)>>, viaDefault |-> TRUE]
+Resolve(cfg, q) ==
+  IF q = <<>> THEN [p |-> <<>>, viaDefault |-> FALSE]
+  ELSE LET subs == CmdAt(cfg, q).subs
+           ds == {n \in 1..Len(subs) : subs[n].enabled /\ subs[n].dflt}
+           ok == {n \in ds : ~NeedsArgs(cfg, Append(q, n))}
+       IN IF ds = {} THEN [p |-> q, viaDefault |-> FALSE]
+          ELSE [p |-> Append(q, IF ok # {} THEN Min(ok) ELSE Min(ds)), viaDefault |-> TRUE]
 \* HelpResolver.create_resolved_command: pinned tree - the strict verdict cached by ResolveResult is used although
 \* leniency has just been switched on; repaired - the request is parsed again, leniently
-RequestFails(cfg, i, j) ==
-  LET r == Resolve(cfg, i, j) IN ~Repaired /\ r.viaDefault /\ NeedsArgs(cfg, r.p)
+RequestFails(cfg, q) ==
+  LET r == Resolve(cfg, q) IN ~Repaired /\ r.viaDefault /\ NeedsArgs(cfg, r.p)
 
-\* requests TLC goes through: every enabled named command / sub-command that is not the built-in help command
+\* requests TLC goes through: every enabled named command at any depth that is not the built-in help command
 \* (known finding C13-help-help: "help --help" shows the application page, "help help" the page of the help command)
-Requests(cfg) ==
-  <<[i |-> 0, j |-> 0]>>
-  \o Cat([i \in 1..Len(cfg.cmds) |->
-            LET c == cfg.cmds[i]
-            IN IF ~c.enabled \/ c.anon \/ c.builtin THEN <<>>
-               ELSE <<[i |-> i, j |-> 0]>>
-                    \o Cat([j \in 1..Len(c.subs) |-> IF c.subs[j].enabled /\ ~c.subs[j].anon THEN <<[i |-> i, j |-> j]>> ELSE <<>>])])
+RECURSIVE NamedBelow(_, _)
+NamedBelow(cs, pre) ==
+  Cat([i \in 1..Len(cs) |-> IF ~cs[i].enabled \/ cs[i].anon \/ cs[i].builtin THEN <<>>
+                            ELSE <<Append(pre, i)>> \o NamedBelow(cs[i].subs, Append(pre, i))])
+Requests(cfg) == <<<<>>>> \o NamedBelow(cfg.cmds, <<>>)
 
 \* ------------------------------------------------------------------ A-layer: state
 VARIABLES cfg,     \* the configuration
@@ -391,7 +412,7 @@ VARIABLES cfg,     \* the configuration
           els,     \* BlockLayout._elements (with their indentations)
           off,     \* LabelAlignment._text_offset
           pages,   \* finished pages: [p, ok, lines]
-          reqs     \* answered requests: [i, j, p, ok] for both request forms (they share everything after the listener)
+          reqs     \* answered requests: [q, p, ok] for both request forms (they share everything after the listener)
 vars == <<cfg, tw, pc, k, els, off, pages, reqs>>
 
 Start(c, T) == cfg = c /\ tw = T /\ pc = "build" /\ k = 1 /\ els = <<>> /\ off = 0 /\ pages = <<>> /\ reqs = <<>>
@@ -410,8 +431,8 @@ Render == /\ pc = "render"
           /\ UNCHANGED <<cfg, tw, reqs>>
 Request == /\ pc = "request"
            /\ LET q == Requests(cfg)[k]
-                  r == Resolve(cfg, q.i, q.j)
-              IN reqs' = Append(reqs, [i |-> q.i, j |-> q.j, p |-> r.p, ok |-> ~RequestFails(cfg, q.i, q.j)])
+                  r == Resolve(cfg, q)
+              IN reqs' = Append(reqs, [q |-> q, p |-> r.p, ok |-> ~RequestFails(cfg, q)])
            /\ IF k < Len(Requests(cfg)) THEN k' = k + 1 /\ pc' = pc ELSE k' = k /\ pc' = "done"
            /\ UNCHANGED <<cfg, tw, els, off, pages>>
 Step == Build \/ Align \/ Render \/ Request
